@@ -127,7 +127,7 @@ struct obj {
 	int in_cb;
 	long cb_count, cb_during_release;
 	int want_fin, fin_count, fin_seen_in_cb;
-	long once_deadline_ms; int once_fd_kind;
+	long once_deadline_ms; int once_fd_kind, once_failed;
 	struct event *ev;
 	struct bufferevent *bev, *under;      /* filter: under = underlying */
 	struct obj *partner;
@@ -316,9 +316,19 @@ static void create(int type, vh_rng *r)
 		break;
 	case T_ONCE: {
 		struct timeval tv; long ms = (long)vh_below(r, 30);
-		o->once_fd_kind = (int)vh_below(r, 3);
+		o->once_fd_kind = (int)vh_below(r, 4);
 		tv.tv_sec = 0; tv.tv_usec = ms * 1000;
 		o->once_deadline_ms = ms;
+		if (o->once_fd_kind == 3 && strcmp(event_base_get_method(base), "epoll")) o->once_fd_kind = 1;   /* poll reports POLLNVAL as readiness, select fails the whole wait */
+		if (o->once_fd_kind == 3) {
+			/* a call that fails: the fd number is not open, epoll refuses it (poll/select accept it; the event then
+			 * simply never fires and goes with the base).  Either way nothing may be left behind or freed twice. */
+			int rc = event_base_once(base, 997, EV_READ, once_cb, o, NULL);
+			xs(rc ? "once_refused" : "once_on_closed_fd_accepted");
+			o->once_failed = 1; o->alive = 0;
+			sc("O%d(badfd:%d) ", o->id, rc);
+			break;
+		}
 		if (o->once_fd_kind == 2) { mksp(o); (void)__real_write(o->sp[1], "o", 1); event_base_once(base, o->sp[0], EV_READ, once_cb, o, NULL); o->once_deadline_ms = 0; }
 		else event_base_once(base, -1, EV_TIMEOUT, once_cb, o, o->once_fd_kind == 1 ? NULL : &tv);
 		if (o->once_fd_kind == 1) o->once_deadline_ms = 0;
@@ -471,7 +481,10 @@ static void release_obj(struct obj *o, int ctx)
 		o->under = NULL;
 		break;
 	case T_EVBUF: evbuffer_free(o->eb); o->eb = NULL; break;
-	case T_LISTENER: evconnlistener_free(o->lis); o->lis = NULL; break;
+	case T_LISTENER:
+		/* two steps inside the listener's own callback: stop accepting, then free */
+		if (ctx == CTX_SELF && (o->id & 1)) { evconnlistener_disable(o->lis); xs("listener_disable_then_free_in_callback"); }
+		evconnlistener_free(o->lis); o->lis = NULL; break;
 	}
 	cur_tag = save_tag; }
 	o->releasing = 0;
@@ -516,6 +529,7 @@ static void final_checks(int ending, long mem0, int fds0, const char *fdlist0, i
 		struct obj *o = &O[i];
 		if (o->type == T_ONCE) {
 			if (o->cb_count > 1) violation("once-twice", o, "object %d: once callback ran %ld times", i, o->cb_count);
+			if (o->once_failed) { if (o->cb_count) violation("once-ran-on-closed-fd", o, "object %d: once callback for a closed fd number ran %ld times", i, o->cb_count); continue; }
 			if (loop_ran_dry && vnow_ms > o->once_deadline_ms + 5 && o->cb_count != 1 && ending != END_BASE_FIRST)
 				violation("once-never", o, "object %d: loop ran %ld ms past the deadline (%ld ms) and to quiescence but the once callback ran %ld times", i, vnow_ms, o->once_deadline_ms, o->cb_count);
 			continue;
@@ -693,7 +707,7 @@ static void run_case(long idx, vh_rng rng, int enum_mode)
 	for (i = 0; i < nobj; i++) {
 		static const char *const st[] = { "objects_event", "objects_once", "objects_bev_socket", "objects_bev_pair", "objects_bev_filter", "objects_evbuffer", "objects_listener" };
 		xs_add(st[O[i].type], 1);
-		if (O[i].type == T_ONCE) xs_add(O[i].cb_count ? "once_ran" : "once_never_ran_base_freed_first", 1);
+		if (O[i].type == T_ONCE && !O[i].once_failed) xs_add(O[i].cb_count ? "once_ran" : "once_never_ran_base_freed_first", 1);
 		if (O[i].libfd < -1) xs("library_fds_closed_once");
 	}
 	h = vh_hash_bytes(enum_mode ? 0x77 : 0x11, script, script_len);
